@@ -52,6 +52,7 @@ type config struct {
 	acmeData *hatypes.AcmeData
 	// haproxy internal state
 	globalOld   *hatypes.Global
+	globalLast  *hatypes.Global
 	global      *hatypes.Global
 	frontend    *hatypes.Frontend
 	hosts       *hatypes.Hosts
@@ -435,6 +436,13 @@ func (c *config) Clear() {
 	// properly identified and updated when a full reconciliation happens
 	config.backends = c.backends
 	config.backends.Clear()
+
+	// copying the last committed global config as well, backends
+	// should be updated if a global option they render has changed
+	config.globalLast = c.globalOld
+	if config.globalLast == nil {
+		config.globalLast = c.globalLast
+	}
 
 	*c = *config
 }
